@@ -939,6 +939,9 @@ func lsnChild(a lib.Args) {
 			if l[0] == "lsn.hist" && !d.lost {
 				d.runLsnHistory(parseLsnScript(l[2]))
 			}
+			if l[0] == "lsn.noreply" && !d.lost {
+				d.replayNoReply(l[2])
+			}
 		}
 		return
 	}
@@ -949,6 +952,13 @@ func lsnChild(a lib.Args) {
 	}
 	if os.Getenv(lsnChildEnv) == "few" { // C07 only looks at the store the histories leave behind
 		n /= 4
+	} else {
+		// exchanges the listener cannot answer (kind lsn.noreply, known to the C06 dispatcher only)
+		nn := 12
+		if a.Tier == "thorough" {
+			nn = 100
+		}
+		d.genNoReply(r.Fork(), nn)
 	}
 	for i := 0; i < n && !d.lost; i++ {
 		ln := 6 + r.Intn(30)
